@@ -8,9 +8,10 @@ MODEL  = the link graph the transcription of `write_outline_tree` produces (ids 
 ORACLE = the written graph, read the way a viewer does (follow /First and /Next from the root,
          checking /Parent, /Prev, /Last), shows exactly the authored forest, every /Count is
          Table 153's, every /Dest names the authored page; named destinations resolve.
-  `fail:links-sibling-position`        navigation fails and the graph is exactly the one the
-                                       modelled defect produces (sibling ids looked up by position)
-  `fail:count-closed-all-descendants`  some closed item's /Count is −(all descendants) as modelled
+  `fail:links-sibling-position`        navigation fails and the graph is exactly the one the code
+                                       produced before repair C28-F1 (sibling ids looked up by position)
+  `fail:count-closed-all-descendants`  some closed item's /Count is −(all descendants), as before
+                                       repair C28-F2
   (both joined by `+` when both occur); every other deviation gets its own `fail:` reason
 -/
 open OxiVerif OxiVerif.C28
@@ -152,7 +153,7 @@ partial def compareNav (irecs : List IRec) : List Nav → List Item → List PIt
          (if ir.dest = showDest p.dest then [] else ["dest"])
        | none => ["title"]) ++
       (if cnt = Spec.countEntry it then []
-       else if cnt = it.countEntry then ["count-closed-all-descendants"] else ["count"])
+       else if cnt = it.countEntryOld then ["count-closed-all-descendants"] else ["count"])
     match compareNav irecs kids it.children pay with
     | none => none
     | some (pay', p1) =>
@@ -223,8 +224,9 @@ def handle (req impl : String) : String × String :=
               let ps := dedup ps
               if ps.isEmpty then "ok" else "fail:" ++ "+".intercalate ps
             | none =>
-              -- not navigable as authored.  Is it exactly the modelled defect?
+              -- not navigable as authored.  Is it exactly the defect repaired as C28-F1?
               let spec := Spec.write 0 pool items
+              let code := ImplOld.write 0 pool items
               let linkOnly (r : Rec) : Rec := { r with count := none }
               let sameLinksAsCode := root.first = code.1.first ∧ root.last = code.1.last ∧
                 recs.map linkOnly = code.2.map linkOnly
